@@ -404,7 +404,7 @@ class Session:
     def __init__(self, bdir, seed=1, relay=None, nclients=1, qtype="NULL", downenc=None, lazy=1,
                  maxlen=None, fragsize=None, raw=False, interval=None, server_args=(), netbits=24,
                  password=PASSWORD, domain=DOMAIN, tag="s", client_pw=None, dump_users=False,
-                 server_domain=None, occupy=0, prior=False, hs_tun=0, pw_via="arg"):
+                 server_domain=None, occupy=0, prior=False, hs_tun=0, pw_via="arg", challenges=()):
         self.relay = relay or Relay(seed)
         self.w = W.World(bdir, seed=seed, policy=self.relay, tag=tag)
         self.w.dump_users = dump_users
@@ -417,6 +417,9 @@ class Session:
         sargs = ["-f", "-4"] + ([] if senv else ["-P", password]) + list(server_args) + \
             ["%s/%d" % (self.server_ip, netbits), server_domain or domain]
         self.w.spawn("S", "S", sargs, env={"IODINED_PASS": password} if senv else None)
+        if challenges:
+            # the next challenges the server issues (its rand() is the harness's): boundary values of the 32-bit arithmetic
+            self.w.k.cmd("forcerand S " + " ".join(str(int(c)) for c in challenges))
         # other peers that only opened a session (version request) before our clients start: the clients then get the
         # higher slots (userid 10..15 is a LETTER in every data query name)
         for k in range(occupy):
